@@ -196,8 +196,40 @@ def _mk_lb_integrals(kind):
     return ob
 
 
+def _mk_assembled(kind):
+    """integrate_log_conditional_y(p_x, y) assembled from its callees' contracts (modular): the returned value is
+       -1/2 ( E[(y-Mx-b)' L (y-Mx-b)] - sum_k LBI_k + ln det Sigma + sum_k KF_k + Dy ln 2 pi )
+    with LBI_k / KF_k the real _lower_bound_integrals / k_func (each under its own obligation above) evaluated at the
+    variational parameters the pipeline itself uses (omega_dagger from the real _get_omega_dagger; omega_star from the
+    lax.while_loop contract)."""
+    def ob(w):
+        xp = w.xp
+        obj, par = gen_hetero(w, kind, "square")
+        p_x, px = SP.gen_pdf(w, "x", "N", "Dx")
+        y = w.arr("y", "N", "Dy")
+        val = obj.integrate_log_conditional_y(p_x, y)                    # REAL (vmap over noise units, while_loop contract)
+        Wm = obj.W
+        A_inv = xp.einsum("abc,acd->abd", obj.Lambda, par["A"])[0]          # [Dy, Dk]
+        om_dag = w.vmap(lambda Wi: obj._get_omega_dagger(p_x=p_x, W_i=Wi))(Wm)
+        k_om = w.vmap(lambda Wi, om: obj.k_func(p_x=p_x, W_i=Wi, omega_dagger=om))(Wm, om_dag)        # [Dk, N]
+        om_star = w.vmap(lambda Wi, ai: obj._get_omega_star(p_x=p_x, y=y, W_i=Wi, a_i=ai))(Wm, A_inv.T)
+        lbi = w.vmap(lambda Wi, ai, om: obj._lower_bound_integrals(p_x, y, Wi, ai, om))(Wm, A_inv.T, om_star)   # [Dk, 1, N]
+        # homoscedastic part from first principles (Wick): E[(y - Mx - b)' L (y - Mx - b)]
+        L0 = obj.Lambda[0]
+        r0 = y - par["b"] - xp.einsum("ij,nj->ni", par["M"][0], px["mu"])
+        hom = xp.einsum("ni,ij,nj->n", r0, L0, r0) + xp.einsum("ji,jk,kl,nli->n", par["M"][0], L0, par["M"][0], px["S"])
+        spec = -0.5 * (hom - xp.sum(lbi, axis=0)[0] + obj.ln_det_Sigma + xp.sum(k_om, axis=0) + w.size("Dy") * w.log2pi())
+        w.equal("integrate_log_conditional_y=assembly of the callee contracts", val, spec)
+    return ob
+
+
 for _kind in ("exp", "coshm1"):
     _cls = LINKS[_kind]
+    REG.ob(f"{_cls}.integrate_log_conditional_y/assembly", sorts=["N", "Dx", "Dy"],
+           funcs=[f"approximate_conditional.HeteroscedasticConditional.{m}" for m in ("integrate_log_conditional_y", "get_lb_log_det",
+                  "get_lb_quadratic_term", "get_lb_heteroscedastic_term_i", "_get_omega_star")] + [f"approximate_conditional.{_cls}._get_omega_dagger"],
+           axioms=G6 + ["lax.while_loop fixed point: any positive value (contract)", "jax.vmap: map over the leading axis"],
+           order={("Dy", "Dy"): False})(_mk_assembled(_kind))
     REG.ob(f"{_cls}.k_func", sorts=["N", "Dx", "Dy"], funcs=[f"approximate_conditional.{_cls}.k_func", f"approximate_conditional.{_cls}._get_omega_dagger"],
            axioms=G6, order={("Dy", "Dy"): False})(_mk_kfunc(_kind))
     REG.ob(f"{_cls}._lower_bound_integrals", sorts=["N", "Dx", "Dy"], funcs=[f"approximate_conditional.{_cls}._lower_bound_integrals"],
